@@ -26,8 +26,8 @@ ASSUMPTIONS = [
 ]
 EXHAUSTIVE = {"quick": True, "thorough": True}
 SHARDS = {"quick": 12, "thorough": 14}
-FLOORS = {"quick": {"accepted_calls": 20000, "ignore_lists_checked": 20000, "method_calls": 8000},
-          "thorough": {"accepted_calls": 100000, "ignore_lists_checked": 100000, "method_calls": 40000}}
+FLOORS = {"quick": {"contract_evaluations_in_repo_tests": 200, "accepted_calls": 20000, "ignore_lists_checked": 20000, "method_calls": 8000},
+          "thorough": {"contract_evaluations_in_repo_tests": 200, "accepted_calls": 100000, "ignore_lists_checked": 100000, "method_calls": 40000}}
 
 
 def cases(tier, seed):
@@ -43,6 +43,8 @@ def cases(tier, seed):
                 chunk = []
     if chunk:
         yield dict(group=chunk)
+    # extra workload: the repository's own tests with the same oracle installed as an icontract postcondition
+    yield dict(contract=True)
 
 
 def build(sig, method):
@@ -68,6 +70,18 @@ def classify(sig, exp, got):
 
 
 def run_case(case, ctx):
+    if case.get("contract"):
+        from vlib import harness
+        state, r = harness.run_repo_tests_with_contracts(["joblib/test/test_func_inspect.py", "joblib/test/test_memory.py"])
+        ctx.evaluated()
+        if state is None:
+            ctx.inconclusive("contract-run-failed", r["err"][-500:] + r["out"][-500:])
+            return
+        ctx.count("contract_evaluations_in_repo_tests", state["filter_args_in_domain"])
+        for v in state["filter_args_violations"][:3]:
+            ctx.violation("contract:filter_args-in-repo-tests", f"while the repository's tests ran: filter_args{v['sig']} args={v['args']} kwargs={v['kwargs']} "
+                                                                 f"ignore={v['ignore']} gave {v['got']}, Python binds {v['expected']}", v)
+        return
     from joblib.func_inspect import filter_args
 
     for one in case["group"]:
